@@ -101,6 +101,8 @@ def strategy(draw, tier="quick"):
             "tric": draw(st.booleans()) and files.FORMATS[fmt].get("tric", False), "seed": draw(st.integers(0, 3))}
     if case["tric"] and case["cell"]:
         case["cellmode"] = draw(st.sampled_from(["tric", "tric", "ortho-then-tric", "tric-then-ortho"]))
+    if draw(st.integers(0, 3)) == 0:
+        case["preexisting"] = True       # the output path already holds an older, longer file of the format
     mode = draw(st.sampled_from(["plain", "plain", "ragged", "crash"]))
     if mode == "ragged" and RAGGED[fmt]:
         kinds = [k for k in RAGGED[fmt] if _ragged_applicable(k, cell, time)]
@@ -179,6 +181,7 @@ def enumerate_cases(tier):
                     if how == "kill" and fmt != "h5a":
                         # the same crash point in a process that wrote another file of the format before (left open / closed)
                         yield dict(c, earlier="closed" if at % 2 else "open")
+                        yield dict(c, preexisting=True)
 
 
 # ------------------------------------------------------------------------------------------------ writing
@@ -227,6 +230,14 @@ def _open_w(fn, fmt, mode="w"):
     return md.open(fn, mode)
 
 
+def _preexist(fn, case, cell, time):
+    """an older, longer output file already sits at the path (a re-run into the same directory)"""
+    fmt, n = case["fmt"], sum(case["comp"])
+    old = files.file_traj(2 * n + 3, case["na"], (case.get("cellmode") or "tric") if case.get("tric") else "ortho-vary", case["seed"] + 7, time="offset")
+    with _open_w(fn, fmt) as fh:
+        _write(fmt, fh, old, 0, len(old), cell, time)
+
+
 def _load(fn, fmt, tr, na=None):
     top = tr.topology if na is None else tr.topology.subset(range(na))
     return files.load(fn, fmt, top)
@@ -259,6 +270,9 @@ def run_case(case):
         inc = os.path.join(d, "inc." + ext)
         rag = case.get("ragged")
         accepted = 0
+        if case.get("preexisting"):
+            _preexist(inc, case, cell, time)
+            labels.append("over-an-older-longer-file")
         fh = _open_w(inc, fmt)
         raised = None
         try:
@@ -360,6 +374,9 @@ def _crash_case(case, tr, d, what, labels):
     viol = []
     fn = os.path.join(d, "live." + fmt)
     efn = os.path.join(d, "earlier." + fmt)
+    if case.get("preexisting"):
+        _preexist(fn, case, cell, time)
+        labels.append("over-an-older-longer-file")
     r, w = os.pipe()
     pid = os.fork()
     if pid == 0:
